@@ -112,3 +112,35 @@ Ltac heat_solve p :=
       [ apply heat_flux_powerlaw; intros; autounfold with epgen; unfold Rpower; auto_derive; [ nz | fsolveA ]
       | unfold energy_eq, powerlaw_flux; autounfold with epgen; exders; fsolveA ]
     end ].
+
+From EP Require Import lib.Piecewise.
+
+(* derivative of a region-wise field strictly inside the region described by P (P holds near x) *)
+Ltac kill_ifs :=
+  repeat match goal with
+  | |- context [Rlt_dec ?a ?b] => destruct (Rlt_dec a b); try (exfalso; lra); try (exfalso; nra)
+  | |- context [Rle_dec ?a ?b] => destruct (Rle_dec a b); try (exfalso; lra); try (exfalso; nra)
+  end.
+
+Ltac cont_solve := apply continuous_of_ex_derive; auto_derive; nz.
+
+Ltac loc_solve :=
+  first [ apply locally_lt_id_const; solve [nz]
+        | apply locally_gt_id_const; solve [nz]
+        | apply locally_lt_cont; [ cont_solve | cont_solve | solve [nz] ] ].
+
+Ltac rderive P :=
+  eapply (is_derive_loc_region P);
+  [ loc_solve
+  | let y := fresh "y" in let Hy := fresh "Hy" in
+    intros y Hy; cbv beta in Hy |- *; kill_ifs; reflexivity
+  | dsolve ].
+
+(* try the r-region predicate, then the t-region predicate *)
+Ltac exders2 Pr Pt :=
+  repeat match goal with
+  | |- exists _, _ => eexists
+  end;
+  repeat match goal with
+  | |- is_derive _ _ _ /\ _ => split; [ first [ rderive Pr | rderive Pt ] | ]
+  end.
